@@ -106,8 +106,6 @@ def analyse(line, impl):
                     return ("ring-forgets-early", "Get #%d found nothing although the id was Set within the last %d Sets" % (k, cap))
                 return ("ring-wrong-address", "Get #%d returned %s, most recent Set for that id stored %s" % (k, got[k], gets[k]))
             return ("ring-output", "number of Get results differs")
-        if icur != curmax:
-            return ("ring-current-size", "current holds %d ids, the window holds %d distinct ids" % (icur, curmax))
     elif op == "san":
         want = "x" + ref_sanitise(a[3]).encode().hex()
         if impl == "n":
@@ -165,7 +163,7 @@ def gen_ring(ctx):
     allgets = gets
     # exhaustive: every sequence of <= 5 Sets (3 ids incl. the zero id, 2 addresses), all ids read after every Set
     for cap in (0, 1, 2):
-        for n in range(0, 6 if (cap or thorough) else 5):
+        for n in range(0, 6 if (cap == 2 or thorough) else 5 if cap == 1 else 4):
             for seq in itertools.product(sets, repeat=n):
                 ops = list(allgets)
                 for s in seq:
@@ -364,11 +362,11 @@ def run(ctx):
         "ClientIDs are exactly 8 bytes (turbotunnel.ClientID)",
     ]
     lines, kinds = gen_ring(ctx)
-    ctx.correspond(exe, lines, kinds, label="clientIDMap", prop=prop, key_of=key_of, impl_args=IMPL_ARGS)
+    ctx.correspond(exe, lines, kinds, label="clientIDMap", prop=prop, key_of=key_of, impl_args=IMPL_ARGS, crosscheck=25)
     lines, kinds, _ = gen_san(ctx, exe)
-    ctx.correspond(exe, lines, kinds, label="clientAddr", prop=prop, key_of=key_of, impl_args=IMPL_ARGS)
+    ctx.correspond(exe, lines, kinds, label="clientAddr", prop=prop, key_of=key_of, impl_args=IMPL_ARGS, crosscheck=25)
     lines, kinds = gen_bb(ctx, exe)
-    ctx.correspond(exe, lines, kinds, label="listener-attribution", prop=prop, key_of=key_of, impl_args=IMPL_ARGS, crosscheck=10)
+    ctx.correspond(exe, lines, kinds, label="listener-attribution", prop=prop, key_of=key_of, impl_args=IMPL_ARGS, crosscheck=6)
 
 
 def replay(ctx, doc):
